@@ -91,6 +91,11 @@ def drive(engine, prop, seed, runs, workers, keep_going, tier="quick"):
                 results.extend(out)
                 if any(r.get("violation") for r in out) and not keep_going:
                     stop = True
+                if sum(1 for r in results if r.get("harness")) >= 6:
+                    # something is systematically wrong (e.g. the code under test blocks in a way the
+                    # seams do not cover): stop burning time-outs, report the harness error (exit 2)
+                    stop = True
+                    ev.set()
             if not stop:
                 while len(pending) < workers * 2 and submit():
                     pass
